@@ -10,7 +10,14 @@ def cuts(rt):
     def persist(c):
         return c.persist()
     def delayed(c):
-        return rt.dx.from_delayed(c.to_delayed(), meta=c._meta, divisions=c.divisions if c.known_divisions else None)
+        ds = c.to_delayed()
+        # (a fused multi-file read has fewer partitions than the logical collection reports: known finding D22's family;
+        #  the divisions handed to from_delayed are those of the plan that to_delayed() materialized)
+        divs = c.divisions if c.known_divisions else None
+        if divs is not None and len(divs) != len(ds) + 1:
+            o = c.optimize()
+            divs = o.divisions if o.known_divisions and len(o.divisions) == len(ds) + 1 else None
+        return rt.dx.from_delayed(ds, meta=c._meta, divisions=divs)
     def delayed_nodiv(c):
         return rt.dx.from_delayed(c.to_delayed(), meta=c._meta)
     def legacy(c):
@@ -133,5 +140,50 @@ def run(run):
                     elif canon(got[1]) != canon(ref[1]):
                         run.violation("cut %s then %s%s: %s differs from the uncut run %s" % (cname, kn, sel, _short(canon(got[1])), _short(canon(ref[1]))),
                                       {"kind": "cut-select", "cut": cname, "sel": sel, "cont": kn, "npartitions": npart, "unknown_divisions": unknown})
-    run.section("cuts", programs=n, cut_executions=ncut, node_kinds=kinds, cut_kinds=list(C), selection_continuations=nsel)
+    # cuts of queries over sources whose partitioning the optimizer changes (multi-file parquet reads fused after a column
+    # projection): the re-imported collection has to describe the graph it carries
+    import os
+    import shutil
+    import tempfile
+    npq = 0
+    tmp = tempfile.mkdtemp(prefix="c17_", dir=common.BUILD)
+    try:
+        wide = pd.DataFrame({c: [100 * j + i for i in range(40)] for j, c in enumerate("abcdefgh")}, index=pd.RangeIndex(100, 140, name="i"))
+        rt.dx.from_pandas(wide, npartitions=8).to_parquet(tmp)
+        heads = {"projected+1": (lambda rd: rd[["a"]] + 1, lambda p: p[["a"]] + 1), "two columns*2": (lambda rd: rd[["a", "c"]] * 2, lambda p: p[["a", "c"]] * 2),
+                 "series": (lambda rd: rd.b + 1, lambda p: p.b + 1), "read only": (lambda rd: rd, lambda p: p), "filter": (lambda rd: rd[rd.a > 110][["a", "b"]], lambda p: p[p.a > 110][["a", "b"]])}
+        tails = {"compute": (lambda x: x, lambda p: p), "sum": (lambda x: x.sum(), lambda p: p.sum()), "loc": (lambda x: x.loc[112:113], lambda p: p.loc[112:113]),
+                 "partitions[-1]": (lambda x: x.partitions[[x.npartitions - 1]].sum(), None), "+1 then max": (lambda x: (x + 1).max(), lambda p: (p + 1).max()), "len": (lambda x: x.size, lambda p: p.size)}
+        for reader in ({}, {"filesystem": "arrow"}):
+            for cd in (False, True):
+                for hn, (hf, hp) in heads.items():
+                    for cname, cut in C.items():
+                        rd = rt.dx.read_parquet(tmp, calculate_divisions=cd, **reader)
+                        head = hf(rd)
+                        cutc = try_(lambda: cut(head))
+                        tagc = "parquet(8 files, %s, calculate_divisions=%s) %s cut %s" % (reader.get("filesystem", "fsspec"), cd, hn, cname)
+                        if cutc[0] == "raise":
+                            run.violation("%s raises %s" % (tagc, cutc[1]), {"kind": "cut-parquet", "cut": cname, "head": hn})
+                            continue
+                        for tn, (tf, tp) in tails.items():
+                            if tn == "loc" and not cd:
+                                continue
+                            npq += 1
+                            run.count(("cut-parquet", str(reader), cd, hn, cname, tn))
+                            exp = try_(lambda: tf(head).compute())
+                            if exp[0] == "raise":
+                                continue
+                            got = try_(lambda: tf(cutc[1]).compute())
+                            case = {"kind": "cut-parquet", "cut": cname, "head": hn, "tail": tn, "reader": str(reader), "calculate_divisions": cd}
+                            if got[0] == "raise":
+                                run.violation("%s then %s fails: %s (the uncut query computes)" % (tagc, tn, got[1]), case)
+                            elif tn != "partitions[-1]" and canon(got[1], False, True) != canon(exp[1], False, True):
+                                run.violation("%s then %s: %s differs from the uncut run %s" % (tagc, tn, _short(canon(got[1], False, True)), _short(canon(exp[1], False, True))), case)
+                        # the re-imported collection reports the partitioning of the graph it carries
+                        nparts = try_(lambda: len(cutc[1].to_delayed()))
+                        if nparts[0] == "ok" and nparts[1] != cutc[1].npartitions:
+                            run.violation("%s: the re-imported collection reports %d partitions, its graph has %d" % (tagc, cutc[1].npartitions, nparts[1]), {"kind": "cut-parquet", "cut": cname, "head": hn})
+    finally:
+        shutil.rmtree(tmp, ignore_errors=True)
+    run.section("cuts", programs=n, cut_executions=ncut, node_kinds=kinds, cut_kinds=list(C), selection_continuations=nsel, parquet_cut_cases=npq)
     run.sample({"cut": "persist after step 1", "program": "v1=filter(t0,...); v2=assign(v1,...); v3=sum(v2)"})
